@@ -102,6 +102,7 @@ def guards_of(path, table_attr):
         _walk(s, [rec], found)
     g = {'caughtLp': [], 'caughtFragTl': [], 'caughtNackInterest': [], 'caughtInterest': [], 'caughtData': [],
          'fragNoneGuard': False, 'usesPitToken': False, 'caughtNackLookup': [], 'nackByDigest': False}
+    g.update(done_guards(path))
     tl_line = None
     for name, node, tr, ifs in found:
         caught = _handler_classes(tr) if tr is not None else []
@@ -137,6 +138,27 @@ def guards_of(path, table_attr):
         if name == 'get' and _mentions(node.func, table_attr):
             g['caughtNackLookup'] = ['keyError']
     return g
+
+
+def done_guards(path):
+    """the "future already done" guards of the InterestTreeNode this front-end uses (appv2.py defines its own, app.py
+    imports the one of name_tree.py): recognised shapes only (props/pit_extract.py), anything else counts as absent"""
+    from props import pit_extract as px
+    tree = ast.parse(open(path).read())
+    cls, entry = px.find_class(tree, 'InterestTreeNode'), px.find_class(tree, 'PendingIntEntry')
+    if cls is None:
+        nt = ast.parse(open(os.path.join(os.path.dirname(path), 'name_tree.py')).read())
+        cls, entry = px.find_class(nt, 'InterestTreeNode'), None
+    if cls is None:
+        return {'nackDoneGuard': False, 'satisfyDoneGuard': False}
+    sh = px.node_shape(cls, entry)
+    nack = sh['nackFails'].startswith('E.implicit_sha256 == implicit_sha256 and (not E.future.done()) => ')
+    if sh['satisfyDone'] == 'n/a':
+        sat = sh['satisfyHands'] == '{if not E.future.done(): E.future.set_result(data)}'
+    else:
+        sat = sh['satisfyDone'] in ('if self.future.cancelled() or self.future.done(): return', 'if self.future.done(): return') \
+            and 'create_task(E.satisfy(data))' in px.strip_mod(sh['satisfyHands'])
+    return {'nackDoneGuard': nack, 'satisfyDoneGuard': sat}
 
 
 def udp_caught(path):
@@ -210,7 +232,7 @@ def generate(repo, consts):
     src = os.path.join(repo, 'src', 'ndn')
     out = ['import NdnModel.Receive', 'import NdnModel.StreamReader',
            '/- GENERATED by harness/props/c06_extract.py from src/ndn/appv2.py, src/ndn/app.py, '
-           'src/ndn/transport/udp_face.py, src/ndn/transport/stream_face.py (ast) and the live TypeNumber/LpTypeNumber '
+           'src/ndn/name_tree.py, src/ndn/transport/udp_face.py, src/ndn/transport/stream_face.py (ast) and the live TypeNumber/LpTypeNumber '
            'constants. Do not edit. -/',
            'namespace Ndn.Gen.C06', 'open Ndn Ndn.Recv', '']
     for tag, f, attr in (('v2', 'appv2.py', '_pit'), ('v1', 'app.py', '_int_tree')):
@@ -224,6 +246,8 @@ def generate(repo, consts):
         out.append(f"  fragNoneGuard := {'true' if g['fragNoneGuard'] else 'false'}")
         out.append(f"  usesPitToken := {'true' if g['usesPitToken'] else 'false'}")
         out.append(f"  nackByDigest := {'true' if g['nackByDigest'] else 'false'}")
+        out.append(f"  nackDoneGuard := {'true' if g['nackDoneGuard'] else 'false'}")
+        out.append(f"  satisfyDoneGuard := {'true' if g['satisfyDoneGuard'] else 'false'}")
         out.append('')
     out.append(f"def udpCaught : List PyErr := {lean_list(udp_caught(os.path.join(src, 'transport', 'udp_face.py')))}")
     sc = stream_caught(os.path.join(src, 'transport', 'stream_face.py'))
